@@ -6,9 +6,10 @@ import (
 	"math/big"
 )
 
-// OlvmSmoke is a development aid: two inputs outside C17's scope (they belong to C18) that the
-// reading of validateSigner suggested: a signature that is not 65 bytes long, and a payload
-// without chain id. Each is offered to CheckTx of a fresh node after the fork height.
+// OlvmSmoke is a development aid: the two inputs that used to panic in validateSigner (a signature
+// that is not 65 bytes long, a payload without chain id; repaired by d9b5b70, C18) are offered to
+// CheckTx of a fresh node after the fork height; both must be refused with the node still open.
+// The generator of the olvm engine produces both as ordinary broken transactions.
 func OlvmSmoke(out io.Writer) {
 	for _, which := range []string{"short-signature", "null-chain-id"} {
 		p := OlvmParams(1, 1)
